@@ -549,7 +549,9 @@ func (r *rewriter) file(f *ast.File) {
 			if r.isBuiltin(n.Fun, "make") && len(n.Args) >= 1 {
 				if t := r.info.TypeOf(n.Args[0]); t != nil {
 					if _, ok := t.Underlying().(*types.Chan); ok && len(n.Args) == 1 {
-						*r.errs = append(*r.errs, fmt.Sprintf("%s: unbuffered channel is not supported by the instrumentation", r.fset.Position(n.Pos())))
+						// unbuffered channels are fine as long as they are only closed and received from;
+						// a send on one under the scheduler is reported as a tool error at run time
+						r.stats["unbuffered-chan"]++
 					}
 				}
 			}
